@@ -104,6 +104,16 @@ def scenario_oracle(case) -> Info:
     close_times = list(case[1])
     base = uninjected(script)
     facts = judge(base, script, "no close()")
+    # the same run next to a second manager that is closed half-way: the first manager must behave exactly as alone
+    evt = [t for t, _i, _k, _a in base["world"].events]
+    for tb in sorted({0.0, round((evt[-1] if evt else 1.0) / 2, 6), round((evt[-1] if evt else 1.0) + 1.0, 6)}):
+        need = sum(s_[1] for s_ in script) + sum(abs(s_[2] or 0) for s_ in script if len(s_) > 2) + 80 + 6 * len(script)
+        withby = vtloop.run_scenario(script, horizon=need, bystander_close_at=tb)
+        judge(withby, script, f"no close(); an unrelated second manager on the same loop is closed at {tb:g}s")
+        sig_a = [(round(t, 6), k, a) for t, _i, k, a in base["world"].events]
+        sig_b = [(round(t, 6), k, a) for t, _i, k, a in withby["world"].events]
+        if sig_a != sig_b:
+            fail(f"the manager's trace changes when an unrelated second manager on the same loop is closed at {tb:g}s: alone {sig_a[:12]} / with bystander {sig_b[:12]}; script {script}", sig="managers-not-independent")
     n_iter = base["iterations"]
     horizon = base["end_time"]
     classes = set()
@@ -237,6 +247,7 @@ def build() -> Check:
         ),
         assumptions=[
             "asyncio single-threaded semantics on a SelectorEventLoop subclass whose selector advances a virtual clock; real sockets/serial transports and other loop implementations are not covered.",
+            "Every scenario is also run next to a second, unrelated ConnectionManager on the same loop that is closed at three different times: the trace of the manager under test must be identical.",
             "The fake transport reports connection_lost(None) one loop iteration after close(), as asyncio transports do.",
             "The manager's wall clock (datetime.utcnow in the loss circuit breaker) is replaced by the virtual clock from outside.",
         ],
